@@ -463,6 +463,8 @@ def shapes(tier, seed):
         [("CRX", (2,), (0, 1), "a"), ("X", (1,), None, None), ("CRX", (2,), (0, 1), "b")],          # ... on one of two controls
         [("CRY", (1,), (0,), "a"), ("H", (1,), None, None), ("CRY", (1,), (0,), "b")],             # ... on the target
         [("CPHASE", (0,), (2,), "a"), ("CNOT", (1,), (2,), None), ("CPHASE", (0,), (2,), "b")],      # control shared with another entangling gate
+        [("H", (0,), None, None), ("S", (0,), None, None), ("S", (0,), None, None), ("H", (0,), None, None)],                  # S S = Z, not the identity
+        [("RY", (1,), None, "a"), ("T", (1,), None, None), ("T", (1,), None, None), ("T", (1,), None, None), ("T", (1,), None, None), ("CNOT", (0,), (1,), None)],
     ]
     ops = [("merge_rotations", "function"), ("merge_rotations", "method"), ("remove_redundant_gates", "function"),
            ("remove_redundant_gates", "method"), ("simplify", "function"), ("simplify", "method")]
